@@ -329,6 +329,8 @@ class ProgreessMonitor:
 
 	def start(self, tokens: list[Token]) -> None:
 		"""ログ出力(開始) Args: tokens: トークンリスト"""
+		# 最大到達位置は解析毎の状態。パーサーを再利用しても前回の解析結果を引き継がない
+		self.peek = 0
 		if self.verbose:
 			for i, token in enumerate(tokens):
 				print(i, token)
